@@ -216,6 +216,7 @@ pub struct Features {
     pub matches: u32,
     pub arrays: u32,
     pub local_letrec: u32,
+    pub rec_pattern_permuted: u32,
     pub aggregate_arrays: u32,
     pub sibling_closures: u32,
     pub closure_aggregate_params: u32,
@@ -265,6 +266,7 @@ impl Features {
         f!(self.matches > 0, "f:match");
         f!(self.arrays > 0, "f:array");
         f!(self.local_letrec > 0, "f:local-letrec");
+        f!(self.rec_pattern_permuted > 0, "f:rec-pattern-permuted");
         f!(self.aggregate_arrays > 0, "f:array-of-tuples");
         f!(self.sibling_closures > 0, "f:sibling-closures");
         f!(self.closure_aggregate_params > 0, "f:closure-aggregate-params");
@@ -1164,7 +1166,18 @@ impl<'a> PG<'a> {
     fn pattern_for_inner(&mut self, ty: &Ty, sc: &mut Scope, assignable: bool) -> Pat {
         match ty {
             Ty::Tup(ts) if self.g.bool(2, 3) => Pat::Tup(ts.clone().iter().map(|t| self.pattern_for_inner(t, sc, assignable)).collect()),
-            Ty::Rec(fs) if self.g.bool(self.cfg.rec_pattern_thirds, 3) => Pat::Rec(fs.clone().iter().map(|(n, t)| (n.clone(), self.pattern_for_inner(t, sc, assignable))).collect()),
+            Ty::Rec(fs) if self.g.bool(self.cfg.rec_pattern_thirds, 3) => {
+                let mut items: Vec<(String, Pat)> = fs.clone().iter().map(|(n, t)| (n.clone(), self.pattern_for_inner(t, sc, assignable))).collect();
+                // a record pattern binds by key: half of the patterns list their fields in another
+                // order than the record's (alphabetical) layout
+                if items.len() > 1 && self.g.bool(1, 2) {
+                    let perm = self.g.perm(items.len());
+                    let mut slots: Vec<Option<(String, Pat)>> = items.drain(..).map(Some).collect();
+                    items = perm.iter().map(|&i| slots[i].take().unwrap()).collect();
+                    self.feat.rec_pattern_permuted += 1;
+                }
+                Pat::Rec(items)
+            }
             _ => {
                 let name = self.fresh("");
                 sc.vars.push(VarInfo { name: name.clone(), ty: ty.clone(), assignable, destructured: false, captured: false });
